@@ -99,6 +99,11 @@ class DatabaseHeader(SQLiteHeader):
             log_message = log_message.format(self.page_size, MAXIMUM_PAGE_SIZE_LIMIT)
             logger.error(log_message)
             raise HeaderParsingError(log_message)
+        elif self.page_size & (self.page_size - 1):
+            log_message = "The page size: {} is not a power of two."
+            log_message = log_message.format(self.page_size)
+            logger.error(log_message)
+            raise HeaderParsingError(log_message)
 
         try:
 
